@@ -17,11 +17,11 @@ import (
 // NopLog is a deterministic, silent logutil.Log.
 type NopLog struct{}
 
-func (NopLog) WithComponent(string) logutil.Log                       { return NopLog{} }
-func (NopLog) Trace(string, ...interface{}) string                    { return "" }
-func (NopLog) Un(string)                                              {}
-func (NopLog) Debugf(string, ...interface{})                          {}
-func (NopLog) Infof(string, ...interface{})                           {}
+func (NopLog) WithComponent(string) logutil.Log    { return NopLog{} }
+func (NopLog) Trace(string, ...interface{}) string { return "" }
+func (NopLog) Un(string)                           {}
+func (NopLog) Debugf(string, ...interface{})       {}
+func (NopLog) Infof(string, ...interface{})        {}
 func (NopLog) Warnf(f string, _ ...interface{}) {
 	if strings.Contains(f, "buffer") || strings.Contains(f, "overrun") {
 		Drops++
@@ -32,10 +32,10 @@ func (NopLog) Errorf(f string, _ ...interface{}) {
 		Drops++
 	}
 }
-func (NopLog) Fatalf(string, ...interface{})                          {}
-func (NopLog) ErrWarn(err error, _ string, _ ...interface{}) error    { return err }
-func (NopLog) ErrFatal(err error, _ string, _ ...interface{}) error   { return err }
-func (NopLog) Err(err error, _ string, _ ...interface{}) error        { return err }
+func (NopLog) Fatalf(string, ...interface{})                        {}
+func (NopLog) ErrWarn(err error, _ string, _ ...interface{}) error  { return err }
+func (NopLog) ErrFatal(err error, _ string, _ ...interface{}) error { return err }
+func (NopLog) Err(err error, _ string, _ ...interface{}) error      { return err }
 
 var Log logutil.Log = NopLog{}
 
